@@ -14,8 +14,9 @@ import LiquidModel.Drv.C12
 import LiquidModel.Drv.C13
 import LiquidModel.Drv.C17
 import LiquidModel.Drv.C14
+import LiquidModel.Drv.C03
 namespace Liquid.Drv
-open C11 C12 C13 C14 C15 C16 C17
+open C03 C11 C12 C13 C14 C15 C16 C17
 
 /-- op name ↦ handler; each `Drv/*.lean` contributes its ops here. -/
 def dispatch (op : String) : Option (List String → String) :=
@@ -49,6 +50,7 @@ def dispatch (op : String) : Option (List String → String) :=
   | "c17z" => some c17zOp
   | "c17d" => some c17dOp
   | "c14" => some c14Op
+  | "c03" => some c03Op
   | _ => none
 
 end Liquid.Drv
